@@ -91,16 +91,40 @@ def specReferrers (as : Map EntA) (f : EntA → FV) (id : Bytes) : List Bytes :=
     | some e => referrerMatch f id e
     | none => false)
 
+/-- restrict through the child-declared fks: some entity refers to `id` through a declared mentor / guard -/
+def specChildRestrict (σ : Schema) (as : Map EntA) (id : Bytes) (c : Child) : Bool :=
+  decide (specReferrers as (mentorOf σ c) id ≠ []) || decide (specReferrers as (guardOf σ c) id ≠ [])
+
+/-- the caller's entity constraint protects one of the entities a cascade would have to remove: the whole
+    delete is refused with its error (no cascade is ever carried out in part) -/
+def Schema.protectedIn (σ : Schema) (d : List Bytes) : Bool :=
+  match σ.protect with
+  | some v => decide (v ∈ d)
+  | none => false
+
 def specDeleteB (σ : Schema) (id : Bytes) (s : SSt) : CB → SRes
   | .thingsRestrict => if specReferrers s.as (·.owner) id ≠ [] then .error .refExists else .ok s
   | .depCascade =>
     let refs := specReferrers s.as (·.dep) id
-    if σ.depCascade then .ok { s with as := removeAll s.as (closure s.as refs) }
+    if σ.depCascade then
+      (if σ.protectedIn (closure s.as refs) then .error .veto
+       else .ok { s with as := removeAll s.as (closure s.as refs) })
     else if refs ≠ [] then .error .refExists else .ok s
 
-/-- restrict through the child-declared fks: some entity refers to `id` through a declared mentor / guard -/
-def specChildRestrict (σ : Schema) (as : Map EntA) (id : Bytes) (c : Child) : Bool :=
-  decide (specReferrers as (mentorOf σ c) id ≠ []) || decide (specReferrers as (guardOf σ c) id ≠ [])
+/-- deleting an A entity removes it together with everything that transitively refers to it — or nothing at
+    all when that set contains the protected entity -/
+def specDeleteA (σ : Schema) (s : SSt) (id : Bytes) : SRes :=
+  if s.as.contains id then
+    (if σ.protectedIn (closure s.as [id]) then .error .veto
+     else .ok { s with as := removeAll s.as (closure s.as [id]) })
+  else .error .notFound
+
+def specDeleteBTop (σ : Schema) (s : SSt) (id : Bytes) : SRes :=
+  if s.bs.contains id then do
+    let s1 ← (orderB σ).foldlM (specDeleteB σ id) s
+    if specChildRestrict σ s1.as id .c1 || specChildRestrict σ s1.as id .c2 then .error .refExists
+    else pure { s1 with bs := s1.bs.erase id }
+  else .error .notFound
 
 def specApply (σ : Schema) (s : SSt) : Op → SRes
   | .createB id =>
@@ -115,8 +139,9 @@ def specApply (σ : Schema) (s : SSt) : Op → SRes
         specWrite σ false { owner := evalVal cur.owner, boss := evalVal cur.boss, dep := evalVal cur.dep } s id
           { owner := if mo then e.owner else cur.owner, boss := if mb then e.boss else cur.boss,
             dep := if md then e.dep else cur.dep, ext1 := cur.ext1, ext2 := cur.ext2 }
-  | .deleteA id =>
-    if s.as.contains id then .ok { s with as := removeAll s.as (closure s.as [id]) } else .error .notFound
+  | .deleteA id => specDeleteA σ s id
+  | .deleteAV id v => specDeleteA (σ.withProtect v) s id
+  | .deleteBV id v => specDeleteBTop (σ.withProtect v) s id
   | .createC c id e x =>
     -- the child store refuses only an id for which it holds data already
     if id = [] then .error .other
@@ -140,15 +165,8 @@ def specApply (σ : Schema) (s : SSt) : Op → SRes
             (({ owner := if mo then e.owner else cur.owner, boss := if mb then e.boss else cur.boss,
                 dep := if md then e.dep else cur.dep, ext1 := cur.ext1, ext2 := cur.ext2 } : EntA).setExt c
               (some { tag := if mt then x.tag else cx.tag, m := if mm then x.m else cx.m, g := if mg then x.g else cx.g }))
-  | .deleteC id =>
-    -- a delete through the child store is a delete of the entity
-    if s.as.contains id then .ok { s with as := removeAll s.as (closure s.as [id]) } else .error .notFound
-  | .deleteB id =>
-    if s.bs.contains id then do
-      let s1 ← (orderB σ).foldlM (specDeleteB σ id) s
-      if specChildRestrict σ s1.as id .c1 || specChildRestrict σ s1.as id .c2 then .error .refExists
-      else pure { s1 with bs := s1.bs.erase id }
-    else .error .notFound
+  | .deleteC id => specDeleteA σ s id      -- a delete through a child store is a delete of the entity
+  | .deleteB id => specDeleteBTop σ s id
 
 def specRunTxFrom (σ : Schema) (s0 : SSt) : Nat → SSt → List Op → SSt × Option (Nat × Err)
   | _, s, [] => (s, none)
